@@ -184,12 +184,18 @@ inductive Micro where
   /-- write through the raw pointer saved in the top frame; `keep = false`: forget it afterwards
       (`m_comment = nullptr`, or a local variable going out of scope) -/
   | deref (keep : Bool) (g : Nat → Pend → Pend)
+  /-- `~ChangesetDiscussionBuilder()` since 5690f83: `if (m_comment_offset != no_comment) {
+      current = comment(); m_comment_offset = no_comment; try { add_text(current, "", 0); }
+      catch (...) {} }` — a compound step, see `execMicro`; `offs` = item offsets of the stack -/
+  | finish (offs : List Nat)
 
 structure St where
   b0 : Buf
   b1 : Buf
   stack : List Frame      -- top first
-  fixF4 : Bool            -- false: current code (m_comment is a raw pointer); true: offset
+  fixF4 : Bool            -- false: the original code (m_comment is a raw pointer, the destructor
+                          -- only asserts); true: the current code (offset; destructor finishes a
+                          -- pending comment)
   dead : Option Err       -- a UB outcome ends the run
   deriving Repr
 
@@ -201,8 +207,8 @@ def setTopPtr (stack : List Frame) (p : Option (Nat × Nat)) : List Frame :=
   | [] => []
   | f :: rest => { f with ptr := p } :: rest
 
-/-- one micro step -/
-def execMicro (s : St) : Micro → Except Err St
+/-- one primitive micro step (`finish` is not primitive: a no-op here) -/
+def execBase (s : St) : Micro → Except Err St
   | .alloc n save g =>
     let k := n s.b0.pend
     let off := s.b0.pend.length
@@ -222,32 +228,38 @@ def execMicro (s : St) : Micro → Except Err St
         if e = s.b0.epoch ∨ s.fixF4 then
           .ok { s with b0 := s.b0.onPend (g off), stack := if keep then s.stack else setTopPtr s.stack none }
         else .error .stale
+  | .finish _ => .ok s
 
-/-- run micro steps; on an error the state reached so far is kept (partial effects of a call that
-    throws are visible) -/
-def execMicros (s : St) : List Micro → St × Option Err
+/-- run micro steps with the step function `ex`; on an error the state reached so far is kept
+    (partial effects of a call that throws are visible) -/
+def execList (ex : St → Micro → Except Err St) (s : St) : List Micro → St × Option Err
   | [] => (s, none)
   | m :: ms =>
-    match execMicro s m with
+    match ex s m with
     | .error e => (s, some e)
-    | .ok s' => execMicros s' ms
+    | .ok s' => execList ex s' ms
 
 /-! ### the builder calls as micro programs (`offs` = item offsets of the stack, top first) -/
 
 def zeros (n : Nat) : Bytes := List.replicate n 0
 
+/- Only `reserve_space` can throw inside a builder call, so every `alloc` step below carries the
+   straight-line code up to the next `reserve_space` with it (the copy into the reserved space and the
+   `add_size` calls that follow it). -/
+
 /-- `append(data, len)` + `add_size(len)` -/
 def mAppend (offs : List Nat) (d : Bytes) : List Micro :=
-  [.alloc (fun _ => d.length) false (fun off p => writeAt p off d),
-   .upd (addSizeChain offs d.length)]
+  [.alloc (fun _ => d.length) false (fun off p => addSizeChain offs d.length (writeAt p off d))]
 
-/-- `add_padding(self)` -/
+/-- `add_padding(self)`: `padding` is computed once from `size()`; the reserved space is
+    `[off, length)`, so `padding = length - off` inside the write -/
 def mPadding (offs : List Nat) (self : Bool) : List Micro :=
   match offs with
   | [] => []
   | top :: parents =>
-    [.alloc (fun p => padOf (u32At p top)) false (fun off p => writeAt p off (zeros (padOf (u32At p top)))),
-     .upd (fun p => addSizeChain (if self then top :: parents else parents) (padOf (u32At p top)) p)]
+    [.alloc (fun p => padOf (u32At p top)) false (fun off p =>
+        addSizeChain (if self then top :: parents else parents) (p.length - off)
+          (writeAt p off (zeros (p.length - off))))]
 
 def itemHeader (size ty : Nat) : Bytes := leBytes size 4 ++ leBytes ty 2 ++ leBytes 0 2
 
@@ -282,8 +294,8 @@ def mSetUser (k : Kind) (offs : List Nat) (u : Bytes) : List Micro :=
   | [] => []
   | top :: _ =>
     let need := if u.length > k.userAvail then padded (u.length - k.userAvail) else 0
-    [.alloc (fun _ => need) false (fun off p => writeAt p off (zeros need)),
-     .upd (fun p =>
+    [.alloc (fun _ => need) false (fun off p =>
+        let p := writeAt p off (zeros need)
         let p := if need = 0 then p else addSizeChain offs need p
         let p := writeAt p (top + k.userOff) u
         setLE p (top + k.userSizeOff) (u.length + 1) 2)]
@@ -300,8 +312,8 @@ def mMember (offs : List Nat) (ty : Nat) (ref : Int) (role : Bytes) (full : Opti
   [ -- reserve_space_for<RelationMember>(); new (member) RelationMember{ref, type, full}: the last 2
     -- bytes of the struct are padding and are not written
     .alloc (fun _ => 16) true (fun off p =>
-      writeAt p off (leBytesInt ref 8 ++ leBytes ty 2 ++ leBytes (if full.isSome then 1 else 0) 2 ++ leBytes 0 2)),
-    .upd (addSizeChain offs 16),
+      addSizeChain offs 16
+        (writeAt p off (leBytesInt ref 8 ++ leBytes ty 2 ++ leBytes (if full.isSome then 1 else 0) 2 ++ leBytes 0 2))),
     -- add_role: member.set_role_size(len + 1)
     .deref false (fun mo p => setLE p (mo + 12) (role.length + 1) 2) ] ++
   mAppend offs (role ++ [0]) ++ mPadding offs true ++
@@ -314,8 +326,7 @@ def mMember (offs : List Nat) (ty : Nat) (ref : Int) (role : Bytes) (full : Opti
     comment.set_user_size(len + 1) through the pointer (kept!), append_with_zero(user) -/
 def mComment (offs : List Nat) (date uid : Nat) (user : Bytes) : List Micro :=
   [ .alloc (fun _ => 16) true (fun off p =>
-      writeAt p off (leBytes date 4 ++ leBytes uid 4 ++ leBytes 0 4 ++ leBytes 0 2)),
-    .upd (addSizeChain offs 16),
+      addSizeChain offs 16 (writeAt p off (leBytes date 4 ++ leBytes uid 4 ++ leBytes 0 4 ++ leBytes 0 2))),
     .deref true (fun co p => setLE p (co + 12) (user.length + 1) 2) ] ++
   mAppend offs (user ++ [0])
 
@@ -324,9 +335,34 @@ def mCommentText (offs : List Nat) (text : Bytes) : List Micro :=
   [ .deref false (fun co p => setLE p (co + 8) (text.length + 1) 4) ] ++
   mAppend offs (text ++ [0]) ++ mPadding offs true
 
-/-- destructor -/
+/-- does the top frame hold a saved pointer / offset (`m_comment_offset != no_comment`)? -/
+def pendingTop (s : St) : Bool :=
+  match s.stack with
+  | f :: _ => f.ptr.isSome
+  | [] => false
+
+/-- one micro step.  `finish offs` (current code only): if a comment is pending, run
+    `add_text(current, "", 0)` = `mCommentText offs []` and swallow buffer_is_full
+    (`catch (...) {}`): whatever the try block did before it threw stays done. -/
+def execMicro (s : St) : Micro → Except Err St
+  | .finish offs =>
+    if s.fixF4 && pendingTop s then
+      match execList execBase s (mCommentText offs []) with
+      | (s', none) => .ok s'
+      | (s', some .full) => .ok s'
+      | (_, some e) => .error e
+    else .ok s
+  | .alloc n save g => execBase s (.alloc n save g)
+  | .upd g => execBase s (.upd g)
+  | .deref keep g => execBase s (.deref keep g)
+
+def execMicros (s : St) (ms : List Micro) : St × Option Err := execList execMicro s ms
+
+/-- destructor: `~ChangesetDiscussionBuilder()` first finishes a pending comment; all list
+    builders then `add_padding()`; the object builders have trivial destructors -/
 def mDtor (k : Kind) (offs : List Nat) : List Micro :=
-  if k.isObj then [] else mPadding offs false
+  if k.isObj then [] else
+  (if k = .disc then [.finish offs] else []) ++ mPadding offs false
 
 /-! ### script operations -/
 
